@@ -25,8 +25,8 @@ THEOREMS = [
 RULE = ("random dependency graphs (1-7 projects; names with dots/dashes/case, epochs, pre/post/dev/local versions, "
         "sha256/sha512/md5 hashes, index/relative/file URLs with fragments, extras on edges, marker extras on requirers, "
         "file-path / '-' / project roots) are built as real DistributionCollection objects; each is written by the real "
-        "write_requirements_file in all 16 option sets (multi/one-line x hashes x urls x annotate, with index/find-links "
-        "directives) and by the extracted Coq `write`; texts must be equal.  Every text (plus ~15% mutated / malformed "
+        "write_requirements_file in all 24 option sets (format multi / one-line / left to the tool (multiline=None) x hashes x "
+        "urls x annotate, with index/find-links directives) and by the extracted Coq `write`; texts must be equal.  Every text (plus ~15% mutated / malformed "
         "texts) is loaded by the real SolutionRepository and by the Coq `load`: the _add_sources call trace, the "
         "exception class, the pins (name, version, hash, URL), reverse-dependency sets and the reconstructed "
         "requirer->project requirements (specifier, extras, marker extra) must agree.  pip's parse_requirements reads "
@@ -60,12 +60,13 @@ ASSUMPTIONS = [
     "pip's parser is compared on generated texts (pins and --hash values), not proved",
 ]
 LEVEL_TEXT = ("Round-trip theorems load (write o v) = Ok (erase o v) proved in Coq for all well-formed views (wf = decidable lexical "
-              "conditions, boolean functions evaluated by the harness on every generated view) and all option sets of the multi-line "
-              "format (C06_roundtrip_multi), and for the one-line two-pass format when no URL is written and the first requirer does not "
-              "start with 'via' (C06_roundtrip_single_partial); both also for views given in any order; three refuted statements "
-              "(one-line + URLs, requirer starting with 'via' in one-line mode, version equal to 0+missing) proved by vm_compute and "
-              "replayed on /repo as known findings; the Gallina writer/loader is tied to /repo by generated constants (pinned by "
-              "C06_gen_constants_ok) and by differential execution of the real writer and loader on generated graphs and mutated texts.")
+              "conditions, boolean functions evaluated by the harness on every generated view): every option set of the multi-line format "
+              "(C06_roundtrip_multi); the one-line two-pass format with hashes/urls/annotate (C06_roundtrip_single_partial; the guard left is "
+              "a comment starting with the word 'via'); the format left to the tool, multiline=None (C06_roundtrip_default_format: no layout "
+              "guard as soon as hashes or URLs are written - the rule `hashes or urls` is read from /repo and pinned); all of them also for "
+              "views given in any order; one refuted statement (requirer literally named `via` in one-line mode) replayed on /repo as a "
+              "known finding; the Gallina writer/loader is tied to /repo by generated constants (pinned by C06_gen_constants_ok) and by "
+              "differential execution of the real writer and loader on generated graphs and mutated texts.")
 LEVEL_NOTE = ("Trusted: Coq kernel, extraction, OCaml driver, T1 translator and T2 harness; requirement/version/specifier parsing and "
               "the graph traversal are outside the model (opaque canonical tokens); pip is compared, not proved.")
 TECHNIQUE = "Rocq proof over a string-level Gallina model (token-wise codec lemmas over lib/PyStr) + extraction-based differential correspondence"
